@@ -27,6 +27,7 @@ def answerLineBody (line : String) : String :=
       | "serde" => BodyE.serde kv
       | "seq" => SeqE.answerBody kv
       | "chunks" => MemE.chunksBody kv
+      | "regroup" => MemE.regroupBody kv
       | "views" => MemE.viewsBody kv
       | _ => "n/a"
     s!"{seq} {body}"
